@@ -431,6 +431,13 @@ def rule_bool_table(ctx: RuleContext, p: Program, g: rx.Grammar, rid: str) -> No
     c = p.cls('Bool', 'models.bool')
     pv = p.method(c, '_parse_value', inherited=False)
     d = [x for x in walk_no_nested(pv.node) if isinstance(x, ast.Dict)]
+    if not d:
+        # the table may live in a module-level or class-level constant that the function indexes
+        for nm in [x for x in walk_no_nested(pv.node) if isinstance(x, (ast.Name, ast.Attribute))]:
+            sym = p.resolve_expr(pv.module, nm) if isinstance(nm, ast.Name) else (
+                c.lookup(nm.attr) if isinstance(nm.value, ast.Name) and nm.value.id in ('cls', 'self') else None)
+            if isinstance(sym, Const) and isinstance(sym.node, ast.Dict):
+                d.append(sym.node)
     alts = g.literal_alternatives('BOOL')
     ok = False
     if len(d) == 1 and alts is not None:
